@@ -17,6 +17,8 @@ import Usual.C16.MemHash
     xxh <seed>                 xxhash(buf, len, seed)           → 8 hex digits
     mem <seed>                 memhash_seed(buf, len, seed)     → 8 hex digits
     mem32 <seed>               memhash_seed as a build with 32-bit pointers and longs computes it
+    touch                      (harness: call memhash, memhash_string, siphash24_secure and every
+                               other entry point with other arguments)  → touched
 
 Numbers are hex without prefix (1..8 digits for 32-bit, 1..16 for 64-bit arguments, decimal
 for <split>); anything else is `bad-op`. -/
@@ -91,6 +93,7 @@ def step (st : State) (line : String) : State × String :=
           match hexNat s 8 with
           | some s => h32 (Usual.C16.MemHash.memhashSeed true buf (UInt32.ofNat s))
           | none => "bad-op"
+        | "touch", [] => "touched"     -- the model has no state: nothing to do
         | "mem32", [s] =>
           match hexNat s 8 with
           | some s => h32 (Usual.C16.MemHash.memhashSeed false buf (UInt32.ofNat s))
